@@ -31,6 +31,7 @@ Holds(o) ==
   /\ o.fresh /\ o.x_intact                                      \* accumulating into 'nothing' is fresh; arguments untouched
   /\ o.smul = SMul(o.x, o.a)
   /\ o.inner = Inner(o.x, o.y) /\ o.inner_yx = o.inner /\ o.inner_real
+  /\ o.inner_scaled_ok                                          \* homogeneity beyond the range of a double for extended-precision leaves
   /\ o.cov = Cov(o.x) /\ o.covcov = o.x
   /\ o.zeros = Zeros(o.sp) /\ o.ones = Ones(o.sp)
   /\ o.size = RDim(o.sp)
